@@ -763,11 +763,14 @@ def rule_limits(facts, rep):
     # param.saturating_mul(10).saturating_add((byte - b'0') as u16) — in two statements or one
     import abseval
     digit_results = []
+    sep_results = []
 
     def run(choices):
+        calls = []
         ev = abseval.Evaluator(facts, cp.CRATE, {
             "anstyle_parse::params::Params::is_full": lambda a: ("bool", ev.oracle(("params", "full"))),
-            "anstyle_parse::params::Params::push": lambda a: ("unit",), "anstyle_parse::params::Params::extend": lambda a: ("unit",),
+            "anstyle_parse::params::Params::push": lambda a: (calls.append(("push", a[1])), ("unit",))[1],
+            "anstyle_parse::params::Params::extend": lambda a: (calls.append(("extend", a[1])), ("unit",))[1],
             "core::num::<impl u16>::saturating_mul": lambda a: ("smul", a[0], a[1]),
             "core::num::<impl u16>::saturating_add": lambda a: ("sadd", a[0], a[1])})
         ev.choices = choices
@@ -780,10 +783,16 @@ def rule_limits(facts, rep):
             ev.ev(tbl["Param"]["body"] if "Param" in tbl else body, env)
         except abseval.Return:
             pass
-        return env["self.param"]
+        return env["self.param"], calls
     try:
-        for choices, fin in abseval.explore(run):
-            if choices.get(("params", "full")) is False and choices.get(("b", ("int", 59))) is False and choices.get(("b", ("int", 58))) is False:
+        for choices, (fin, calls_) in abseval.explore(run):
+            if choices.get(("params", "full")) is not False:
+                continue
+            if choices.get(("b", ("int", 59))) is True:
+                sep_results.append(("semi", fin, calls_))
+            elif choices.get(("b", ("int", 58))) is True:
+                sep_results.append(("colon", fin, calls_))
+            if choices.get(("b", ("int", 59))) is False and choices.get(("b", ("int", 58))) is False:
                 digit_results.append(fin)
         want_digit = ("sadd", ("smul", ("sym", "p"), ("int", 10)), ("bin", "Sub", ("sym", "b"), ("int", 48)))
         ok_digit = bool(digit_results) and all(r == want_digit for r in digit_results)
@@ -792,15 +801,12 @@ def rule_limits(facts, rep):
     rep.check(ok_digit and "?" not in got, "limits", pa["path"], "Param:digit→saturating",
               f"param = param.saturating_mul(10).saturating_add((byte - b'0') as u16) — values saturate at 65535; got "
               f"{[x[0] for x in dig]}", loc(pa, body))
-    # param zeroed after push/extend
-    zero_after = 0
-    for blk in [n for n in hir.walk(body) if n.get("k") == "block"]:
-        s = hir.stmts_of(blk)
-        for i, x in enumerate(s[:-1]):
-            if hir.is_call(hir.simp(x), "Params::push", "Params::extend"):
-                nx = hir.simp(s[i + 1])
-                if nx.get("k") == "assign" and self_field(nx["l"], "param") and hir.lit_val(nx["r"]) == 0:
-                    zero_after += 1
+    # a separator hands the accumulated value to push / extend and leaves param at 0 (in whichever order: `push(p); p = 0` or
+    # `let v = mem::take(&mut p); push(v)`)
+    zero_after = sum(1 for kind, fin, calls_ in sep_results
+                     if fin == ("int", 0) and calls_ == [("push" if kind == "semi" else "extend", ("sym", "p"))])
+    if len(sep_results) != 2:
+        zero_after = -len(sep_results)
     rep.check(zero_after == 2, "limits", pa["path"], "Param:zero-after-separator", f"{zero_after} of 2", loc(pa, body))
 
 
